@@ -42,62 +42,20 @@ def ack_summary(I, loc):
     import z3
     so = I.heap.get(loc['self'])
     m = I.heap.get(so.fields['_settings'])
-    items, hn = m.arrays['items'], m.arrays['head_none']
+    cells, lo, hi, hn = m.arrays['cells'], m.arrays['lo'], m.arrays['hi'], m.arrays['head_none']
     k = z3.Int('ack!k')
-    adv = z3.Length(z3.Select(items, k)) > 1
-    new_items = z3.Lambda([k], z3.If(adv, z3.SubString(z3.Select(items, k), 1, z3.Length(z3.Select(items, k)) - 1), z3.Select(items, k)))
-    new_hn = z3.Lambda([k], z3.If(adv, z3.BoolVal(False), z3.Select(hn, k)))
+    adv = z3.Select(hi, k) - z3.Select(lo, k) > 1
     res = I.new_sym_map('changes', I.class_named('h2.settings.ChangedSetting'))
     r = I.heap.get(res)
     r.dom = z3.Lambda([k], z3.And(z3.Select(m.dom, k), adv))
     r.arrays['setting'] = z3.Lambda([k], k)
-    r.arrays['original_value'] = z3.Lambda([k], z3.Select(items, k)[0])
+    r.arrays['original_value'] = z3.Lambda([k], z3.Select(z3.Select(cells, k), z3.Select(lo, k)))
     r.arrays['original_value?'] = z3.Lambda([k], z3.Select(hn, k))
-    r.arrays['new_value'] = z3.Lambda([k], z3.Select(items, k)[1])
-    m.arrays['items'], m.arrays['head_none'] = new_items, new_hn
+    r.arrays['new_value'] = z3.Lambda([k], z3.Select(z3.Select(cells, k), z3.Select(lo, k) + 1))
+    # popleft of every queue that has a pending value: the window's lower end moves, the cells stay
+    m.arrays['lo'] = z3.Lambda([k], z3.If(adv, z3.Select(lo, k) + 1, z3.Select(lo, k)))
+    m.arrays['head_none'] = z3.Lambda([k], z3.If(adv, z3.BoolVal(False), z3.Select(hn, k)))
     loc['__ack_result'] = res
-    # instances of lemma 'queue-tail-stays-in-range' (proved separately) for the range-checked settings: they
-    # spare the solver an induction-free but quantifier-heavy derivation at every caller
-    for key, lo, hi in QUEUE_RANGES:
-        old_i = z3.Select(items, key)
-        new_i = z3.If(z3.Length(old_i) > 1, z3.SubString(old_i, 1, z3.Length(old_i) - 1), old_i)
-        I.assume(queue_tail_lemma_instance(old_i, new_i, lo, hi))
-
-
-QUEUE_RANGES = [(5, 16384, 16777215), (4, 0, 2 ** 31 - 1)]
-
-
-def _qrange(x, lo, hi, tag):
-    import z3
-    j = z3.Int('qpos!' + tag)
-    return z3.ForAll([j], z3.Implies(z3.And(j >= 1, j < z3.Length(x)), z3.And(x[j] >= lo, x[j] <= hi)))
-
-
-def queue_tail_lemma_instance(old_i, new_i, lo, hi):
-    import z3
-    return z3.Implies(z3.And(_qrange(old_i, lo, hi, 'a'), z3.Length(old_i) > 1),
-                      z3.And(old_i[1] >= lo, old_i[1] <= hi, _qrange(new_i, lo, hi, 'b')))
-
-
-def _build_queue_tail_lemma():
-    import z3
-    q = z3.Const('q', z3.SeqSort(z3.IntSort()))
-    lo, hi = z3.Ints('lo hi')
-    tail = z3.SubString(q, 1, z3.Length(q) - 1)
-    k = z3.Int('k')     # Skolem position of the goal's quantifier
-    assumes = [_qrange(q, lo, hi, 'a'), z3.Length(q) > 1]
-    goal = z3.And(q[1] >= lo, q[1] <= hi,
-                  z3.Implies(z3.And(k >= 1, k < z3.Length(tail)), z3.And(tail[k] >= lo, tail[k] <= hi)))
-    # tail[k] == q[k+1]: give the instance the solver needs
-    assumes.append(z3.Implies(z3.And(k >= 0, k < z3.Length(tail)), tail[k] == q[k + 1]))
-    return assumes, goal
-
-
-from h2vc.spec import zlemma
-zlemma('queue-tail-stays-in-range', ['C11', 'C12'], _build_queue_tail_lemma,
-       note='if every queued (non-head) value of a settings queue is in [lo, hi] and the queue has a pending value, then '
-            'that pending value is in range and so is every queued value of the queue without its head '
-            '(sequence fact tail[k] == q[k+1] supplied as an instance)')
 
 
 def ack_result(I, loc):
@@ -107,7 +65,8 @@ def ack_result(I, loc):
 modular(S + '.acknowledge')
 contract(S + '.acknowledge', props=['C11'],
     args={}, setup=settings_setup, ghost={'g_head': 'smap:bool'}, modifies=[ack_summary], result=ack_result,
-    requires=['SETTINGS_OK(self)',
+    requires=['SETTINGS_OK_WEAK(self)',   # (the queue-position invariant of SETTINGS_OK is not needed here and only burdens the solver)
+             
               # ghost g_head: the keys carried by the OLDEST unacknowledged SETTINGS frame; each has a pending value
               'all(implies(k in g_head, len(self._settings[k]) > 1) for k in self._settings)'],
     ensures=[('applies-one-pending-value-per-key', 'all(len(self._settings[k]) == (old(len(self._settings[k])) - 1 if old(len(self._settings[k])) > 1 else old(len(self._settings[k]))) for k in self._settings)'),
@@ -192,8 +151,8 @@ def recv_settings_modifies(I, loc):
 
 
 RECV_SETTINGS_MODIFIES = [
-    'maparr:self.remote_settings._settings:items', 'maparr:self.remote_settings._settings:head_none', 'mapdom:self.remote_settings._settings',
-    'maparr:self.local_settings._settings:items', 'maparr:self.local_settings._settings:head_none',
+    'maparr:self.remote_settings._settings:cells', 'maparr:self.remote_settings._settings:lo', 'maparr:self.remote_settings._settings:hi', 'maparr:self.remote_settings._settings:head_none', 'mapdom:self.remote_settings._settings',
+    'maparr:self.local_settings._settings:cells', 'maparr:self.local_settings._settings:lo', 'maparr:self.local_settings._settings:hi', 'maparr:self.local_settings._settings:head_none',
     'maparr:self.streams:outbound_flow_control_window', 'maparr:self.streams:max_outbound_frame_size',
     'maparr:self.streams:_inbound_window_manager.current_window_size', 'maparr:self.streams:_inbound_window_manager.max_window_size',
     'field|self.max_outbound_frame_size|int', 'field|self.max_inbound_frame_size|int', 'field|self.incoming_buffer.max_frame_size|int',
